@@ -971,6 +971,14 @@ def may_be_empty_list(f, expr):
             if not uncond:
                 return f"`{expr.id}` starts as [] and is appended to only inside loops / under conditions"
         return None
+    # list(product(...)) / tuple(product(...)) / product(...) itself: the same sequence as the comprehension over it
+    inner = expr
+    while isinstance(inner, ast.Call) and isinstance(inner.func, ast.Name) and inner.func.id in ("list", "tuple", "sorted") and len(inner.args) == 1:
+        inner = inner.args[0]
+    if isinstance(inner, ast.Call) and ast.unparse(inner.func).endswith("product"):
+        rk = next((k.value for k in inner.keywords if k.arg == "repeat"), None)
+        if rk is not None and not (isinstance(rk, ast.Constant) and isinstance(rk.value, int) and rk.value > 0):
+            return f"product(..., repeat={ast.unparse(rk)}) yields a single empty tuple when {ast.unparse(rk)} is 0"
     if isinstance(expr, (ast.ListComp, ast.GeneratorExp)):
         it = expr.generators[0].iter
         if isinstance(it, ast.Call) and ast.unparse(it.func).endswith("product"):
